@@ -392,7 +392,9 @@ def _nomut_and_return(run, prog, cls, s, fq, fn):
     for ev, ctx in rets:
         v = ev.value
         stored = s.fields.get("importance_values")
-        if not (ir.strip_sites(v) == ir.strip_sites(iv) or v == ("field0", "importance_values") or (stored is not None and v == stored)):
+        stored_alts = strip_gates(stored) if stored is not None else []
+        if not (ir.strip_sites(v) == ir.strip_sites(iv) or v == ("field0", "importance_values") or
+                all(a in stored_alts or a == ("field0", "importance_values") for a in strip_gates(v))):
             ok = False
             run.fail("RETURN", fq, f"{s.path}:{ev.line}", fq, f"returns {ir.show_nl(v)[:100]}",
                      f"explain_one must return the importance_values property; it returns {ir.show_nl(v)[:160]}")
